@@ -34,7 +34,12 @@ def opC12Snake (j : Json) : Except String Json := do
   let s ← getStrL j "s"
   pure (Json.mkObj [("r", jstr (toSnakeCase s))])
 
+open Model.Names in
+def opC12Camel (j : Json) : Except String Json := do
+  let s ← getStrL j "s"
+  pure (Json.mkObj [("r", jstr (toCamelCase s)), ("json_name", jstr (toJsonName s))])
+
 def opsC12 : List (String × (Json → Except String Json)) :=
-  [("c12.names", opC12Names), ("c12.path", opC12Path), ("c12.file", opC12File), ("c12.snake", opC12Snake)]
+  [("c12.names", opC12Names), ("c12.path", opC12Path), ("c12.file", opC12File), ("c12.snake", opC12Snake), ("c12.camel", opC12Camel)]
 
 end GapicModel.Driver
